@@ -922,7 +922,7 @@ Section Sync.
     match o with
     | OSet _ w _ => w =? 7
     | OSpAppend _ _ _ | OSpDelete _ _ | OSpSet _ _ _ | OSpSort _ | OSpSortAbs _ | OSpQuery _ _ | OSpTouch _
-    | OSpAdopt _ => true
+    | OSpAdopt _ | OSpIterate _ _ => true
     | _ => false
     end.
 
@@ -951,7 +951,7 @@ Section Sync.
   Theorem hstep_synced : forall s o, is_sp_op o = true ->
     hstate_synced s -> hstate_synced (fst (hstep idna_raw c s o)).
   Proof.
-    intros s o Ho HS. destruct o as [slot w v| | | |slot n v|slot n|slot n v|slot|slot|slot n|slot|slot];
+    intros s o Ho HS. destruct o as [slot w v| | | |slot n v|slot n|slot n v|slot|slot|slot n|slot|slot|slot md];
       cbn [is_sp_op] in Ho; try discriminate; cbn [hstep fst];
       try (apply with_sp_synced; exact HS).
     - apply N.eqb_eq in Ho. subst w. destruct (get s slot) as [u|] eqn:E; [|exact HS].
